@@ -67,6 +67,17 @@ def sym_scalar(ob, kind, name='c'):
         s = SymScalar(v, 'complex', 'complex')
         ob.describe(name, {'kind': kind, 'value': v})
         return s, Term.of(v)
+    if kind == 'tensor0_f32':
+        # a single precision 0-d tensor scalar (value representable in float32) used with operands of any dtype: torch computes
+        # `double tensor op float32 0-d tensor` in double precision, so the result is exact and keeps the operand's dtype
+        from ttvc import terms as _terms
+        v = z3.Real(name)
+        t = STensor([], 'float32', lambda idx: Term.of(v))
+        t.name = name
+        ob.ex.assume(_terms.R32(v) == v)
+        ob.ex.register_arg(t, name)
+        ob.describe(name, {'kind': 'tensor0', 'value': v, 'dtype': 'float32', 'representable32': True})
+        return t, Term.of(v)
     if kind in ('tensor0', 'tensor1'):
         v = z3.Real(name)
         # the scalar tensor has the dtype of the TT operand (mixed-dtype promotion is not part of the property)
